@@ -176,7 +176,45 @@ def judge_raire_many(ncon):
     return []
 
 
+def judge_raire_large(K):
+    """K ballots in two contests (every second ballot also in the second contest, rows thousands of lines apart), a few
+    identifiers repeated at the very end: one card per identifier, in first-appearance order, later rows standing"""
+    r1s = [p for r in range(0, 4) for p in itertools.permutations(["x", "y", "z"], r)]
+    rows = [["2"], ["Contest", "k1", "3", "x", "y", "z"], ["Contest", "k2", "2", "u", "v"]]
+    want = {}
+    for i in range(K):
+        r = list(r1s[i % len(r1s)])
+        rows.append(["k1", f"b{i}"] + r)
+        want[f"b{i}"] = {"k1": {c: k + 1 for k, c in enumerate(r)}}
+    for i in range(K - 1, -1, -2):
+        r = ["v", "u"] if i % 3 else ["u"]
+        rows.append(["k2", f"b{i}"] + r)
+        want[f"b{i}"]["k2"] = {c: k + 1 for k, c in enumerate(r)}
+    for i in range(0, K, 997):
+        rows.append(["k1", f"b{i}", "z"])
+        want[f"b{i}"]["k1"] = {"z": 1}
+    try:
+        got, n = CVR.from_raire(rows)
+    except Exception as e:  # noqa
+        return [(f"C18|from_raire|exception|{type(e).__name__}", f"{K} ballots: {type(e).__name__}: {str(e)[:80]}")]
+    if [c.id for c in got] != list(want):
+        return [("C18|from_raire|identifiers", f"{len(rows)} rows for {K} ballots: {len(got)} cards, {len(set(c.id for c in got))} distinct identifiers, expected {len(want)} in first-appearance order")]
+    bad = [c.id for c in got if c.votes != want[c.id]]
+    if bad:
+        c = next(c for c in got if c.id == bad[0])
+        return [("C18|from_raire|ranks", f"{len(rows)} rows: {len(bad)} cards differ from the file, e.g. {c.id}: {c.votes}, expected {want[c.id]}")]
+    return []
+
+
 def run_shard(sh, rec):
+    if sh[0] == "raire-large":
+        rec.state()
+        rec.trans()
+        rec.evals()
+        rec.vac("raire_inputs_of_thousands_of_rows")
+        for key, what in judge_raire_large(sh[1]):
+            rec.violate(key, what, {"kind": "raire-large", "K": sh[1]})
+        return
     if sh[0] == "raire":
         for ncon in range(1, 26):
             rec.state()
@@ -225,7 +263,7 @@ def run_shard(sh, rec):
 
 def explore(tier, seed):
     pl = PLAN[tier]
-    sh = [("raire",)]
+    sh = [("raire",), ("raire-large", 1500), ("raire-large", 9000)] + ([("raire-large", 60000)] if tier == "thorough" else [])
     for L in range(1, pl["full"] + 1):
         for first in range(len(alphabet())):
             sh.append(("merge", L, first, False, L == pl["full"]))
@@ -236,6 +274,8 @@ def explore(tier, seed):
 
 
 def run_case(case):
+    if case["kind"] == "raire-large":
+        return judge_raire_large(case["K"])
     if case["kind"] == "raire-many":
         return judge_raire_many(case["ncon"])
     if case["kind"] == "raire":
